@@ -152,4 +152,30 @@ CHECKS = {
         "note": COMMON_NOTE + "The bridge from the model's complex-pair overlap to Mathlib's inner product is not proved (Float run compared with numpy on every case).",
         "technique": "Lean 4 (Finset-indexed loop invariant, Mathlib inner-product spaces, Real.sqrt algebra) + differential run with planted permutation / orthonormality / printed numbers as oracle",
     },
+    "C11": {
+        "text": "Proved on the model of mode_gamma.py: for any log-log interpolant with derivatives s', s'' the returned triple is (omega, "
+                "-dln omega/dln V, V dgamma/dV) of one omega (triple_consistent); numpy polyder/polyval are derivatives; the normal-equation "
+                "solution minimises the residual and IS the generating polynomial for ln omega polynomial of degree <= order on >= order+1 "
+                "distinct volumes; the lagrange/krogh kernel is THE interpolating polynomial (unique) hence exact for degree < #nodes and for "
+                "power laws at every V>0; Gamma-acoustic entries are exactly 0; output at (q,m) depends on the input series of (q,m) only; "
+                "thinning keeps at most `order` nodes; plot selection n=0,1,2 -> omega, gamma, V dgamma/dV. Negative result with witness: "
+                "hermite always raises TypeError (known finding). PARTIAL: FITPACK/pchip/akima internals are a parameter (contract s'=ds, "
+                "s''=ds' measured by finite differences on every library case). Real interpolate_modes / lstsq_polyfit / "
+                "Calculator._interpolate_modes / ModePlotter.plot_modes are compared with the model on 7 methods x admissible orders x "
+                "{power law, polynomial, smooth}; independent oracle: analytic gamma and V dgamma/dV, finite differences, mpmath reference.",
+        "note": COMMON_NOTE + "Totality of the Gaussian elimination on non-singular normal equations is observed at run time, not proved (its answer is re-checked exactly over Q).",
+        "technique": "Lean 4 theorems (HasDerivAt chain rule, Mathlib Polynomial root counting, least-squares orthogonality) + differential correspondence with exact-rational kernels + analytic/finite-difference/mpmath oracles",
+    },
+    "C16": {
+        "text": "Merge: for all nested dictionaries and every iteration order of the key set, a complete path-by-path specification of "
+                "update_config (user's walk wins; a user dict over a non-dict default is taken whole - regression theorem for fix a3016c4) is "
+                "proved, giving user-leaf-kept, default-leaf-filled, no-other-keys, idempotence, order-independence and definedness. "
+                "Validation: a model of the jsonschema 2020-12 fragment the packaged schema uses, run by the Lean kernel on the re-translated "
+                "schema/default/examples; for each of 18 documented fields: violating value => every configuration rejected, satisfying value "
+                "=> any valid configuration stays valid; missing qha/elast rejected; unknown keys in elast.settings and ...symmetry rejected; "
+                "default and shipped examples validate. Correspondence with the real update_config/apply_default_config/validate_config/"
+                "read_config and with jsonschema on 30 schema variants; independent leaf-path and documented-constraint oracles.",
+        "note": COMMON_NOTE + "YAML/JSON parsers are not modelled (spelling equivalence tested through the real read_config only). jsonschema is a modelled third party (Draft 2020-12 choice and $ref-sibling semantics measured each run). No claim about unknown root-level keys.",
+        "technique": "Lean 4 theorems (induction on paths / sizeOf over the nested JSON type; fuel-indexed schema evaluator; decide +kernel on translated schema data) + differential correspondence + independent oracles",
+    },
 }
